@@ -11,6 +11,10 @@ using namespace Fastor;
 // FORM 3: pointer kernel _matmul writing straight into the guard-flush buffer
 // FORM 4: lazy product of expressions ((A+0) % (B-0)) assigned to an existing tensor
 // FORM 5: rank-1 operand forms through operator% only
+// vf::opaque(C) after each product: a compiler barrier that keeps every store to the local result observable.
+// g++ 12.2's RTL dead-store elimination otherwise deletes stores to C when the inlined copy-out reads C through a
+// register that also holds the one-past-the-end address of the adjacent local B (DESIGN.md 11.5) — a toolchain
+// miscompilation, not library behaviour. The barrier neither changes what the library computes nor what is compared.
 template <class T, size_t M, size_t K, size_t N, int FORM>
 void thunk(const T *a, const T *b, T *out) {
   if constexpr (FORM == 3) {   // internal pointer kernel: operands aligned like a Tensor's own storage (its documented callers pass tensor data)
@@ -20,18 +24,20 @@ void thunk(const T *a, const T *b, T *out) {
   }
   Tensor<T, M, K> A; Tensor<T, K, N> B;
   std::copy(a, a + M * K, A.data()); std::copy(b, b + K * N, B.data());
-  if constexpr (FORM == 0) { Tensor<T, M, N> C = matmul(A, B); std::copy(C.data(), C.data() + M * N, out); }
-  else if constexpr (FORM == 1) { Tensor<T, M, N> C = A % B; std::copy(C.data(), C.data() + M * N, out); }
-  else if constexpr (FORM == 4) { Tensor<T, M, N> C; C.fill(T(77)); C = (A + T(0)) % (B - T(0)); std::copy(C.data(), C.data() + M * N, out); }
+  if constexpr (FORM == 0) { Tensor<T, M, N> C = matmul(A, B); vf::opaque(C); std::copy(C.data(), C.data() + M * N, out); }
+  else if constexpr (FORM == 1) { Tensor<T, M, N> C = A % B; vf::opaque(C); std::copy(C.data(), C.data() + M * N, out); }
+  else if constexpr (FORM == 4) { Tensor<T, M, N> C; C.fill(T(77)); C = (A + T(0)) % (B - T(0)); vf::opaque(C); std::copy(C.data(), C.data() + M * N, out); }
   else if constexpr (FORM == 2 || FORM == 5) {
     if constexpr (N == 1) {
       Tensor<T, K> v; std::copy(b, b + K, v.data());
       Tensor<T, M> c; if constexpr (FORM == 2) c = matmul(A, v); else c = A % v;
+      vf::opaque(c);
       std::copy(c.data(), c.data() + M, out);
     } else {
       static_assert(M == 1, "rank-1 form needs M==1 or N==1");
       Tensor<T, K> v; std::copy(a, a + K, v.data());
       Tensor<T, N> c; if constexpr (FORM == 2) c = matmul(v, B); else c = v % B;
+      vf::opaque(c);
       std::copy(c.data(), c.data() + N, out);
     }
   }
